@@ -1,5 +1,5 @@
 //verif:pkg internal/spynode
-//verif:kit memstore nodekit
+//verif:kit memstore nodekit interleave
 package spynode
 
 // C11 — transaction tracking across a clean restart.
@@ -58,13 +58,24 @@ func VerifHarness_C11_restart() {
 	// in the last two cases the trusted peer vouches for it
 	// ... or the trusted peer vouches after the untrusted body was processed: by announcing the
 	// txid (its inventory handler, through the node's message dispatch) or by sending the body too
-	source := verifrt.Choose("t.source", 5)
+	// ... or while the untrusted body is being processed (interleaving point inside
+	// processUnconfirmedTx: recorded in the mempool, not yet in the transaction repository)
+	source := verifrt.Choose("t.source", 6)
+	if source == 5 {
+		vkInterleave = func(point string) {
+			inv := wire.NewMsgInv()
+			inv.AddInvVect(wire.NewInvVect(wire.InvTypeTx, &tid))
+			verifrt.Assert(k.node.handleMessage(ctx, inv) == nil, "C11.before.trusted-inv-handled")
+			verifrt.Reach("C11.before.vouched-while-the-body-is-processed")
+		}
+	}
 	trusted := source != 0
 	if source == 2 {
 		k.node.memPool.AddRequest(ctx, tid, true)
 		verifrt.Reach("C11.before.announced-by-trusted-body-from-untrusted")
 	}
 	perr := k.node.processUnconfirmedTx(ctx, handlers.TxData{Msg: t, Trusted: source == 1, ConfirmedHeight: -1})
+	vkInterleave = nil
 	if source == 3 {
 		inv := wire.NewMsgInv()
 		inv.AddInvVect(wire.NewInvVect(wire.InvTypeTx, &tid))
